@@ -210,11 +210,11 @@ func Run(c *core.Ctx) int {
 	}
 	opsFailed := map[*calcproto.Doc]bool{}
 	opsLean := map[int]c01.Presented{}
-	for _, p := range c01.OpsFamily(c, false, c.Pick(1500, 60000), calcproto.GenOpts{CurrencyOnly: true}, forceRule, replayDoc) {
+	for _, p := range c01.OpsFamily(c, false, c.Pick(1500, 30000), calcproto.GenOpts{CurrencyOnly: true}, forceRule, replayDoc) {
 		if effectiveRule(p.Doc) != "currency" {
 			continue // a replayed description of another rule
 		}
-		if calcproto.OutsideExactDomain(p.Inv) {
+		if calcproto.OutsideExactDomain(p.Inv) || calcproto.OutsidePaymentDomain(p.Inv) {
 			c.Count("ops:presented-skipped-outside-2^52-domain", 1)
 			continue
 		}
